@@ -313,6 +313,7 @@ func (s *StateMachine) ApplyTransactions(ctx context.Context, txs [][]byte, r *l
 	defer s.SetStore(originalStore)
 	// create a variable to track if the block is over size
 	var oversize bool
+	var preOversizeSlashTracker *SlashTracker
 	var executeDuration, flushDuration time.Duration
 	// iterates over each transaction in the block
 	for i, tx := range txs {
@@ -341,6 +342,8 @@ func (s *StateMachine) ApplyTransactions(ctx context.Context, txs [][]byte, r *l
 			}
 			// set oversize to 'true'
 			oversize = true
+			// remember the slash tracker as of the last transaction that fits in the block
+			preOversizeSlashTracker = s.slashTracker.Clone()
 			// wrap the store in a 'database transaction' to rollback all the 'oversize transactions'
 			if _, e := s.TxnWrap(); e != nil {
 				return e
@@ -386,6 +389,13 @@ func (s *StateMachine) ApplyTransactions(ctx context.Context, txs [][]byte, r *l
 			return e
 		}
 		r.Add(tx, txResultBz, result, events, oversize)
+	}
+	// the oversize remainder ran in a nested store transaction that is dropped when this function returns;
+	// drop what it left in the read-through caches and the slash tracker as well, otherwise EndBlock
+	// computes the block from balances that include transactions which are not in the block
+	if oversize {
+		s.ResetCaches()
+		s.slashTracker = preOversizeSlashTracker
 	}
 	// update metrics
 	s.Metrics.UpdateLargestTxSize(r.LargestTx)
